@@ -5,4 +5,5 @@ var verifHarnesses = map[string]func(){
 	"HarnessSmoke1": HarnessSmoke1,
 	"HarnessSmoke2": HarnessSmoke2,
 	"HarnessC01a":   HarnessC01a,
+	"HarnessC04a":   HarnessC04a,
 }
